@@ -214,19 +214,24 @@ def run_harness(name, timeout, stubbing=False, extra_cfg=None, logdir=None, mem_
     from . import gen
     full = gen.all_harnesses().get(name, "crate::" + name).replace("crate::", "", 1) + "::" + name
     with Worker() as w:
-        cmd = ["cargo", "kani", "--target-dir", w.dir, "--harness", full, "--exact",
-               "-Z", "concrete-playback", "--concrete-playback=print", "-Z", "stubbing"]
+        base = ["cargo", "kani", "--target-dir", w.dir, "--harness", full, "--exact", "-Z", "stubbing",
+                "--no-assertion-reach-checks"]
         if extra_args:
-            cmd += extra_args
+            base += extra_args
         log = os.path.join(logdir, name + ".log") if logdir else None
-        rc, out, dt, to = run_capped(cmd, HARNESS, env, timeout, mem_gb, log)
-    r = classify(out, rc, to)
-    r["harness"] = name
-    r["wall_s"] = round(dt, 2)
-    r["log"] = log
-    if r["verdict"] == "FAIL":
-        blocks = [b for b in parse_playback(out) if b["kind"] != "cover"]
-        r["playback"] = blocks
+        rc, out, dt, to = run_capped(base, HARNESS, env, timeout, mem_gb, log)
+        r = classify(out, rc, to)
+        r["harness"] = name
+        r["wall_s"] = round(dt, 2)
+        r["log"] = log
+        if r["verdict"] == "FAIL":
+            # second solver run asking for the concrete values of the counterexample (trace generation over the
+            # 64 KiB message buffer is slow, so it is only paid for failures)
+            cmd = base + ["-Z", "concrete-playback", "--concrete-playback=print"]
+            log2 = os.path.join(logdir, name + ".cex.log") if logdir else None
+            rc2, out2, dt2, to2 = run_capped(cmd, HARNESS, env, max(timeout, 600), mem_gb, log2)
+            r["playback"] = [b for b in parse_playback(out2) if b["kind"] != "cover"]
+            r["cex_wall_s"] = round(dt2, 2)
     r.pop("failed", None)
     return r
 
